@@ -171,7 +171,7 @@ fn table<'a>(dir: &'a [TableRec], tag: &[u8; 4]) -> Option<&'a TableRec> {
 /// One extreme-value edit; returns its description.
 pub fn extreme_edit(buf: &mut [u8], dir: &[TableRec], rng: &mut Rng, p: &mut Patcher) -> String {
     let n_glyphs = table(dir, b"maxp").and_then(|r| be16(buf, r.offset as usize + 4)).unwrap_or(0);
-    let mut set = |buf: &mut [u8], p: &mut Patcher, tag: &[u8; 4], off: usize, v: u16| -> String {
+    let set = |buf: &mut [u8], p: &mut Patcher, tag: &[u8; 4], off: usize, v: u16| -> String {
         match table(dir, tag) {
             Some(r) if off + 2 <= r.len as usize => {
                 p.set16(buf, r.offset as usize + off, v);
